@@ -2,6 +2,7 @@ import ERP.Lemmas.Refine
 import ERP.Lemmas.RealOps
 import ERP.Spec.Run
 import ERP.Model.Entry
+import ERP.Lemmas.GenConsts
 /-! # C09 — Filtering is total and protocol-conformant
 
 The faithful model makes every way the Python code can raise an explicit `Except.error`
